@@ -22,10 +22,10 @@ package index
 //@   closure[0]
 //@     assume tree_holds_record_digests: typeis(i, "v2/index.recordDigest")
 //@     let samedig := call[bytes.Equal#0]
-//@     call[bytes.Equal#0] assert compares_digest_with_the_keys_digest [C04]: ref(arg1) == ref(entry.digest)
+//@     call[bytes.Equal#0] assert compares_digest_with_the_keys_digest [C04,C08]: ref(arg1) == ref(entry.digest)
 //@     ensures stops_after_the_digest_run [C04]: !samedig ==> result == false && found == old(found)
-//@     ensures exact_match_sets_found [C04]: samedig && existing.Record.Cid == c ==> found && result == false
-//@     ensures other_cid_same_digest_continues [C04]: samedig && existing.Record.Cid != c ==> result == true && found == old(found)
+//@     ensures exact_match_sets_found [C04,C08]: samedig && existing.Record.Cid == c ==> found && result == false
+//@     ensures other_cid_same_digest_continues [C04,C08]: samedig && existing.Record.Cid != c ==> result == true && found == old(found)
 //@   end
 //@   ensures def: err == nil && result0 == byCid(ii, c)
 
@@ -37,7 +37,7 @@ package index
 //@     let samemh := call[bytes.Equal#1]
 //@     call[bytes.Equal#0] assert compares_digest_with_the_keys_digest [C04]: ref(arg1) == ref(entry.digest)
 //@     call[bytes.Equal#1] assert compares_multihash_with_the_key [C04]: ref(arg1) == ref(mh)
-//@     ensures stops_after_the_digest_run [C04]: !samedig ==> result == false && found == old(found)
+//@     ensures stops_after_the_digest_run [C01,C04]: !samedig ==> result == false && found == old(found)
 //@     ensures match_sets_found [C04]: samedig && samemh ==> found && result == false
 //@     ensures other_multihash_same_digest_continues [C04]: samedig && !samemh ==> result == true && found == old(found)
 //@   end
@@ -116,7 +116,7 @@ package index
 //@   requires in_range [C09]: 0 <= i && i < len(r) && 0 <= j && j < len(r)
 //@   let cmp := call[bytes.Compare#0]
 //@   call[bytes.Compare#0] assert compares_the_two_digests [C11]: ref(arg0) == ref(r[i].digest) && ref(arg1) == ref(r[j].digest)
-//@   ensures ascending_by_digest [C11]: result == (cmp < 0)
+//@   ensures ascending_by_digest [C10,C11]: result == (cmp < 0)
 
 //@ func (recordSet).Swap
 //@   requires in_range [C09]: 0 <= i && i < len(r) && 0 <= j && j < len(r)
@@ -173,7 +173,7 @@ package index
 //@     assume tree_holds_record_digests: typeis(i, "v2/index.recordDigest")
 //@     let samedig := call[bytes.Equal#0]
 //@     let more := call[dynamic#0]
-//@     call[bytes.Equal#0] assert compares_digest_with_the_keys_digest [C04,C07]: ref(arg1) == ref(entry.digest)
+//@     call[bytes.Equal#0] assert compares_digest_with_the_keys_digest [C03,C04,C07]: ref(arg1) == ref(entry.digest)
 //@     call[dynamic#0] assert yields_the_candidates_offset [C04,C07]: arg0 == existing.Record.Offset && samedig
 //@     ensures stops_after_the_digest_run [C04,C07]: !samedig ==> result == false && any == old(any)
 //@     ensures candidate_is_offered_and_caller_decides [C04,C07]: samedig ==> any && result == more
@@ -326,8 +326,8 @@ package index
 //@ func (*multiWidthCodedIndex).forEach
 //@   closure[0]
 //@     let emh, eerr := call[multihash.Encode#0]
-//@     call[multihash.Encode#0] assert encodes_this_digest_under_the_bucket_code [C11]: ref(arg0) == ref(digest) && arg1 == m.code
-//@     call[dynamic#0] assert yields_that_multihash_and_offset [C11]: ref(arg0) == ref(emh) && arg1 == offset && eerr == nil
+//@     call[multihash.Encode#0] assert encodes_this_digest_under_the_bucket_code [C03,C11]: ref(arg0) == ref(digest) && arg1 == m.code
+//@     call[dynamic#0] assert yields_that_multihash_and_offset [C03,C11]: ref(arg0) == ref(emh) && arg1 == offset && eerr == nil
 //@   end
 
 //@ func (*MultihashIndexSorted).ForEach
@@ -476,7 +476,7 @@ package index
 //@   check reads_every_declared_bucket [C11]: err == nil ==> i >= l
 //@   ghost after call[newMultiWidthCodedIndex#0]: mark(m) := i
 //@   call[multiWidthCodedIndex.Unmarshal#0] assert reads_into_the_new_bucket [C11]: ref(arg0) == ref(mwci) && ref(arg1) == ref(r)
-//@   call[MultihashIndexSorted.put#0] assert stores_the_bucket_created_in_this_iteration [C11]: ref(arg1) == ref(mwci) && mark(m) == i
+//@   call[MultihashIndexSorted.put#0] assert stores_the_bucket_created_in_this_iteration [C01,C07,C11]: ref(arg1) == ref(mwci) && mark(m) == i
 //@   note stores_the_bucket_created_in_this_iteration: one bucket object per hash code: the bucket put under a code is the one allocated and read in the same iteration
 
 // Codecs (C05, C11): each index type announces its own multicodec; WriteTo prefixes it and ReadFrom/New dispatch on it.
